@@ -13,6 +13,7 @@ Cartesian U tensors, identity/behavioural disjointness of result and input, snap
 import itertools
 import json
 import math
+import re
 import struct
 
 from . import common
@@ -128,11 +129,20 @@ def gen_structure(rng, natoms=None, kind=None, in_cell=False):
 
 def build(spec):
     import numpy
-    from diffpy.structure import Atom, Lattice, Structure
+    import copy
+
+    from diffpy.structure import Atom, Lattice, PDFFitStructure, Structure
 
     lat = spec["lattice"]
     L = Lattice(*lat["abcABG"], baserot=lat["baserot"])
-    S = Structure(lattice=L, title=spec.get("title", ""))
+    pf = spec.get("pdffit")
+    if pf and pf.get("cls") == "PDFFitStructure":
+        S = PDFFitStructure(lattice=L, title=spec.get("title", ""))
+        S.pdffit.update(copy.deepcopy(pf["meta"]))
+    else:
+        S = Structure(lattice=L, title=spec.get("title", ""))
+        if pf:
+            S.pdffit = copy.deepcopy(pf["meta"])
     for at in spec["atoms"]:
         a = Atom(at["element"], at["xyz"], label=at["label"], occupancy=at["occupancy"])
         S.append(a, copy=False)
@@ -145,6 +155,34 @@ def build(spec):
         for k, v in at.get("extra", {}).items():
             setattr(a, k, tuple(v) if isinstance(v, list) else v)
     return S
+
+
+FORMS = ["tuple", "list", "ndarray", "npint", "float", "ndarray-float"]
+
+
+def mno_arg(mno, form="tuple"):
+    """the multiplier sequence in the container / number type a caller may pass"""
+    import numpy
+
+    if form == "list":
+        return [int(m) for m in mno]
+    if form == "ndarray":
+        return numpy.array([int(m) for m in mno], dtype=int)
+    if form == "npint":
+        return tuple(numpy.int64(m) for m in mno)
+    if form == "float":
+        return tuple(float(m) for m in mno)
+    if form == "ndarray-float":
+        return numpy.array([float(m) for m in mno], dtype=float)
+    return tuple(int(m) for m in mno)
+
+
+def gen_pdffit(rng, cls=None):
+    """pdffit metadata as a PDFFitStructure / a structure read from a PDFfit file carries it (nested lists)"""
+    return {"cls": cls or rng.choice(["PDFFitStructure", "PDFFitStructure", "Structure"]),
+            "meta": {"scale": round(rng.uniform(0.5, 2.0), 4), "delta1": round(rng.random(), 3), "delta2": round(rng.random(), 3),
+                     "sratio": 1.0, "rcut": 0.0, "spcgr": rng.choice(["P1", "Fm-3m", "P63mc"]), "spdiameter": 0.0, "stepcut": 0.0,
+                     "dcell": [round(rng.random() * 0.01, 5) for _ in range(6)], "ncell": [rng.randrange(1, 4) for _ in range(3)] + [rng.randrange(1, 9)]}}
 
 
 def model_line(spec, mno):
@@ -178,6 +216,8 @@ def snapshot(S):
         "n": len(S),
         "ids": [id(a) for a in S],
         "title": S.title,
+        "pdffit": repr(getattr(S, "pdffit", None)),
+        "cls": type(S).__name__,
         "lat": (L.abcABG(), numpy.array(L.baserot).tolist(), numpy.array(L.base).tolist(), numpy.array(L.normbase).tolist(),
                 numpy.array(L.recbase).tolist(), numpy.array(L.metrics).tolist()),
         "latid": id(L),
@@ -185,6 +225,51 @@ def snapshot(S):
                    id(a.lattice), sorted((k, repr(v)) for k, v in a.__dict__.items() if k not in ("xyz", "_U", "lattice")))
                   for a in S],
     }
+
+
+def mutable_graph(St):
+    """id -> path of every mutable object reachable from a structure: the structure, its lattice and the lattice's
+    arrays, every atom and its arrays / mutable attribute values, the pdffit dictionary and everything nested in it"""
+    import numpy
+
+    out = {}
+
+    def walk(o, path):
+        if isinstance(o, (list, dict, set, bytearray, numpy.ndarray)):
+            out.setdefault(id(o), path)
+            if isinstance(o, dict):
+                for k, v in o.items():
+                    walk(v, "%s[%r]" % (path, k))
+            elif isinstance(o, list):
+                for i, v in enumerate(o):
+                    walk(v, "%s[%d]" % (path, i))
+
+    out[id(St)] = "structure"
+    for k, v in St.__dict__.items():
+        if v is St.lattice:
+            continue
+        walk(v, k)
+    L = St.lattice
+    out[id(L)] = "lattice"
+    for k, v in L.__dict__.items():
+        walk(v, "lattice." + k)
+    for i, a in enumerate(St):
+        out.setdefault(id(a), "atom[%d]" % i)
+        for k, v in a.__dict__.items():
+            if k == "lattice":
+                continue
+            walk(v, "atom[%d].%s" % (i, k))
+    return out
+
+
+def shared_objects(S, T):
+    """(failures, observations): mutable objects reachable from both; the lattice ndarrays that Lattice(lattice) copies by
+    reference (never written in place by the library) are observations, everything else is a failure"""
+    gs, gt = mutable_graph(S), mutable_graph(T)
+    bad, obs = [], []
+    for i in set(gs) & set(gt):
+        (obs if gs[i].startswith("lattice.") and gt[i].startswith("lattice.") else bad).append((gt[i], gs[i]))
+    return sorted(bad), sorted(obs)
 
 
 def attrs_of(a):
@@ -203,7 +288,7 @@ def cart_U(a):
 
 
 # ---------------------------------------------------------------- oracle
-def oracle(spec, mno, want_result=False):
+def oracle(spec, mno, want_result=False, form="tuple"):
     """Evaluate the statement of C15 on the real code for one (structure, multipliers).
     Returns (list of (key, message), result-or-None)."""
     import numpy
@@ -214,7 +299,7 @@ def oracle(spec, mno, want_result=False):
     before = snapshot(S)
     valid = len(mno) == 3 and all(int(m) == m and m >= 1 for m in mno)
     try:
-        T = supercell(S, tuple(mno))
+        T = supercell(S, mno_arg(mno, form))
         err = None
     except Exception as e:  # noqa: BLE001
         T, err = None, e
@@ -223,7 +308,8 @@ def oracle(spec, mno, want_result=False):
         fails.append(("input-modified", "supercell modified its input structure"))
     if not valid:
         if not isinstance(err, ValueError):
-            fails.append(("rejects", "multipliers %r not rejected with ValueError (got %r)" % (list(mno), err if err else "a result")))
+            fails.append(("rejects", "multipliers %r (passed as %s) not rejected with ValueError (got %r)" % (
+                list(mno), form, err if err else "a result of %d atoms, cell %r" % (len(T), T.lattice.abcABG()[:3]))))
         return fails, None
     if err is not None:
         fails.append(("raises:%s" % type(err).__name__, "valid multipliers %r raised %r" % (list(mno), err)))
@@ -285,6 +371,13 @@ def oracle(spec, mno, want_result=False):
             fails.append(("positions", "parent %d: %d distinct images, expected %d" % (p, len(seen), l * m * n)))
     if T.title != S.title:
         fails.append(("attrs", "title not carried"))
+    if repr(getattr(T, "pdffit", None)) != repr(getattr(S, "pdffit", None)):
+        fails.append(("attrs", "pdffit metadata not carried: %r vs %r" % (getattr(T, "pdffit", None), getattr(S, "pdffit", None))))
+    bad, obs = shared_objects(S, T)
+    for tp, sp_ in bad[:3]:
+        fails.append(("shared:" + re.sub(r"\[\d+\]", "", tp).replace("'", ""),
+                      "the mutable object result.%s is the same object as input.%s" % (tp, sp_)))
+    oracle.last_obs = [o[0] for o in obs]
     # disjointness: identities
     sid = set(before["ids"])
     if T is S or T.lattice is S.lattice:
@@ -309,11 +402,41 @@ def oracle(spec, mno, want_result=False):
             T.pop(0)
         T.lattice.setLatPar(a=1.0, alpha=77.0, baserot=[[0, 1, 0], [0, 0, 1], [1, 0, 0]])
         T.title = "changed"
+        pf = getattr(T, "pdffit", None)
+        if isinstance(pf, dict):
+            for k, v in list(pf.items()):
+                if isinstance(v, list):
+                    v.append(99)
+                    v[0] = -5
+                else:
+                    pf[k] = "edited"
+            pf["added"] = [1]
         if snapshot(S) != before:
             fails.append(("alias", "writing through the result changed the input structure"))
         T = None
+        # the other direction: write through the input, look at a second result
+        S2 = build(spec)
+        T2 = supercell(S2, mno_arg(mno, form))
+        t2 = snapshot(T2)
+        for a_ in S2:
+            a_.xyz[:] = -3.0
+            a_._U[:] = 0.25
+            a_.element = "Qq"
+        pf = getattr(S2, "pdffit", None)
+        if isinstance(pf, dict):
+            for k, v in list(pf.items()):
+                if isinstance(v, list):
+                    v.append(77)
+                    v[0] = -7
+                else:
+                    pf[k] = "edited"
+        S2.lattice.setLatPar(b=2.0, gamma=81.0)
+        if len(S2):
+            S2.pop(0)
+        if snapshot(T2) != t2:
+            fails.append(("alias", "writing through the input changed the result structure"))
     if want_result and T is None:
-        T = supercell(build(spec), tuple(mno))
+        T = supercell(build(spec), mno_arg(mno, form))
     return fails, T
 
 
@@ -384,48 +507,82 @@ def compare_with_model(spec, mno, mout, T):
 def run(ck):
     common.use_repo()
     ok, info = ck.lean_obligations("DS.Props.C15")
+    try:
+        import diffpy.structure.expansion  # noqa: F401
+        from diffpy.structure import PDFFitStructure  # noqa: F401
+    except Exception as e:  # noqa: BLE001
+        ck.fail("import:%s" % type(e).__name__, "the package under test cannot be imported: %r" % (e,), {"kind": "import", "observed": repr(e)})
+        return
     rng = ck.rng
     quick = ck.tier == "quick"
     top = 3 if quick else 4
     triples = list(itertools.product(range(1, top + 1), repeat=3))
-    cases = []  # (spec, mno, stratum)
+    cases = []  # (spec, mno, stratum, form of the multiplier argument)
+
+    def gs(**kw):
+        sp = gen_structure(rng, **kw)
+        if rng.random() < 0.4:
+            sp["pdffit"] = gen_pdffit(rng)
+        return sp
+
     # every multiplier triple on fresh random structures
     reps = 2 if quick else 8
     for t in triples:
-        for _ in range(reps):
-            cases.append((gen_structure(rng), list(t), "valid"))
+        for r_ in range(reps):
+            cases.append((gs(), list(t), "valid", "tuple" if r_ == 0 else rng.choice(FORMS)))
     # strata by cell kind with a fixed awkward triple
     for kind in ["cubic", "hex", "ortho", "mono", "tric", "rhomb"]:
         for t in ([2, 1, 3], [1, 1, 2], [3, 2, 1]):
-            cases.append((gen_structure(rng, natoms=rng.choice([1, 2, 4]), kind=kind), t, "valid"))
+            cases.append((gs(natoms=rng.choice([1, 2, 4]), kind=kind), t, "valid", rng.choice(FORMS)))
+    # PDFFitStructure / structures carrying pdffit metadata (nested lists), incl. the (1,1,1) copy path
+    for t in ([1, 1, 1], [2, 1, 1], [1, 2, 2], [2, 2, 2]):
+        for cls in ("PDFFitStructure", "Structure"):
+            sp = gen_structure(rng, natoms=rng.choice([1, 2, 3]))
+            sp["pdffit"] = gen_pdffit(rng, cls)
+            cases.append((sp, t, "valid", "tuple"))
     # empty structure
-    cases.append((gen_structure(rng, natoms=0), [2, 2, 1], "valid"))
-    # rejections
-    bad = [[0, 1, 1], [1, 0, 2], [2, 2, 0], [-1, 1, 1], [1, -3, 1], [2, 2, -2], [0, 0, 0], [2, 2], [3], [], [1, 1, 1, 1], [2, 3, 4, 5],
-           [0, 1], [-1, 2, 2, 2]]
+    cases.append((gs(natoms=0), [2, 2, 1], "valid", "tuple"))
+    # rejections: wrong lengths, and every sign pattern of {-2..2}^3 with an entry < 1, in every argument form
+    bad = [[2, 2], [3], [], [1, 1, 1, 1], [2, 3, 4, 5], [0, 1], [-1, 2, 2, 2], [-1, -1], [-1, -2, 1, 1], [1, -3, 1], [5, 0, 7]]
     for b in bad:
-        cases.append((gen_structure(rng, natoms=rng.choice([1, 2, 3])), b, "reject"))
-    lines = [model_line(s, m) for s, m, _ in cases]
+        cases.append((gs(natoms=rng.choice([1, 2, 3])), b, "reject", rng.choice(FORMS[:4])))
+    signs = [list(t) for t in itertools.product([-2, -1, 0, 1, 2], repeat=3) if min(t) < 1]
+    for i, b in enumerate(signs):
+        cases.append((gs(natoms=rng.choice([0, 1, 2, 3])), b, "reject", "tuple"))
+        cases.append((gs(natoms=rng.choice([1, 2])), b, "reject", FORMS[1 + i % (len(FORMS) - 1)]))
+    bad = bad + signs
+    lines = [model_line(s, m) for s, m, _, _ in cases]
     outs = common.driver(lines)
     nontrivial = 0
     samples = []
-    for (spec, mno, stratum), line, mout in zip(cases, lines, outs):
-        fails, T = oracle(spec, mno, want_result=True)
+    n_obs = {}
+    for (spec, mno, stratum, form), line, mout in zip(cases, lines, outs):
+        replay = {"kind": "supercell", "input": {"structure": spec, "mno": mno, "form": form}}
         ck.coverage["evaluations"] += 1
+        try:
+            oracle.last_obs = []
+            fails, T = oracle(spec, mno, want_result=True, form=form)
+            for o_ in oracle.last_obs:
+                n_obs[o_] = n_obs.get(o_, 0) + 1
+            dis = compare_with_model(spec, mno, mout, T)
+        except Exception as e:  # noqa: BLE001  whatever the implementation returns or raises is a verdict on this case
+            ck.fail("supercell:unexpected:%s" % type(e).__name__,
+                    "supercell(%d atoms, %r as %s): evaluation of the result failed with %r" % (len(spec["atoms"]), mno, form, e),
+                    dict(replay, observed=repr(e)))
+            continue
         if stratum == "valid" and len(spec["atoms"]) > 0 and mno != [1, 1, 1]:
             nontrivial += 1
-        replay = {"kind": "supercell", "input": {"structure": spec, "mno": mno}}
         for key, msg in fails:
-            ck.fail("supercell:" + key, "supercell(%s cell, %d atoms, %r): %s" % (spec["lattice"]["kind"], len(spec["atoms"]), mno, msg),
+            ck.fail("supercell:" + key, "supercell(%s cell, %d atoms, %r as %s): %s" % (spec["lattice"]["kind"], len(spec["atoms"]), mno, form, msg),
                     dict(replay, observed=msg))
-        dis = compare_with_model(spec, mno, mout, T)
         ck.coverage["traces_validated_against_impl"] += 1
         if dis and not fails:
             ck.fail("tie:sc.run", "model and implementation disagree on supercell(%r): %s" % (mno, dis[0]),
                     dict(replay, kind="correspondence", model=mout[:400], observed=dis, theorem="DS.Expand.supercell"), no_failing_input=True)
         if len(samples) < 3 and stratum == "valid" and T is not None and len(T) > 2:
-            samples.append({"cell": spec["lattice"]["abcABG"], "natoms": len(spec["atoms"]), "mno": mno, "len_result": len(T),
+            samples.append({"cell": spec["lattice"]["abcABG"], "natoms": len(spec["atoms"]), "mno": mno, "form": form, "len_result": len(T),
                             "model_head": mout[:120]})
+    ck.notes.append("lattice ndarrays that are the same object in input and result lattice (observation, not a failure; occurrences): %r" % (n_obs,))
     # the ijk order itself
     l, m, n = rng.randrange(1, 5), rng.randrange(1, 5), rng.randrange(1, 5)
     o = common.driver(["sc.ijk %d %d %d" % (l, m, n)])[0].split()
@@ -441,7 +598,10 @@ def run(ck):
     n2 = 0
     for p, q in fac:
         spec = gen_structure(rng, natoms=rng.choice([1, 2, 3]))
-        fails, same = oracle_two_step(spec, p, q)
+        try:
+            fails, same = oracle_two_step(spec, p, q)
+        except Exception as e:  # noqa: BLE001
+            fails, same = [("unexpected:%s" % type(e).__name__, "two-step %r,%r: evaluation failed with %r" % (p, q, e))], True
         n2 += 1
         ck.coverage["evaluations"] += 1
         if not same:
@@ -474,28 +634,31 @@ def run(ck):
                     {"kind": "correspondence", "input": {"structure": s, "p": list(p), "q": list(q)}, "theorem": "DS.Props.C15.two_step"},
                     no_failing_input=True)
         ck.coverage["traces_validated_against_impl"] += 1
-    # what the code does with non-integers (outside the model; recorded)
-    spec = gen_structure(rng, natoms=2)
-    notes = []
-    from diffpy.structure.expansion import supercell
+    try:
+        # what the code does with non-integers (outside the model; recorded)
+        spec = gen_structure(rng, natoms=2)
+        notes = []
+        from diffpy.structure.expansion import supercell
 
-    for mm in ([2.5, 1, 1], [1.5, 1.9, 1.2], [0.5, 1, 1], [2.0, 3.0, 1.0]):
+        for mm in ([2.5, 1, 1], [1.5, 1.9, 1.2], [0.5, 1, 1], [2.0, 3.0, 1.0]):
+            S = build(spec)
+            try:
+                r = supercell(S, mm)
+                notes.append("%r -> %d atoms, cell %r" % (mm, len(r), tuple(round(x, 4) for x in r.lattice.abcABG()[:3])))
+            except Exception as e:  # noqa: BLE001
+                notes.append("%r -> %s" % (mm, type(e).__name__))
+        ck.notes.append("non-integer multipliers (outside the model; the code truncates with int() after the >=1 test): " + "; ".join(notes))
+        # measured: which objects a result does share with its input by reference (never written in place by the library)
         S = build(spec)
-        try:
-            r = supercell(S, mm)
-            notes.append("%r -> %d atoms, cell %r" % (mm, len(r), tuple(round(x, 4) for x in r.lattice.abcABG()[:3])))
-        except Exception as e:  # noqa: BLE001
-            notes.append("%r -> %s" % (mm, type(e).__name__))
-    ck.notes.append("non-integer multipliers (outside the model; the code truncates with int() after the >=1 test): " + "; ".join(notes))
-    # measured: which objects a result does share with its input by reference (never written in place by the library)
-    S = build(spec)
-    S[0].mutable_extra = [1, 2]
-    r2 = supercell(S, (2, 1, 1))
-    r1 = supercell(S, (1, 1, 1))
-    ck.notes.append("reference sharing (recorded, see assumptions): result.lattice.baserot is input.lattice.baserot: %s (2,1,1) / %s (1,1,1); "
-                    "result.lattice.base is input.lattice.base: %s (2,1,1) / %s (1,1,1); a list-valued extra attribute is the same object in parent "
-                    "and image: %s" % (r2.lattice.baserot is S.lattice.baserot, r1.lattice.baserot is S.lattice.baserot,
-                                       r2.lattice.base is S.lattice.base, r1.lattice.base is S.lattice.base, r2[0].mutable_extra is S[0].mutable_extra))
+        S[0].mutable_extra = [1, 2]
+        r2 = supercell(S, (2, 1, 1))
+        r1 = supercell(S, (1, 1, 1))
+        ck.notes.append("reference sharing (recorded, see assumptions): result.lattice.baserot is input.lattice.baserot: %s (2,1,1) / %s (1,1,1); "
+                        "result.lattice.base is input.lattice.base: %s (2,1,1) / %s (1,1,1); a list-valued extra attribute is the same object in parent "
+                        "and image: %s" % (r2.lattice.baserot is S.lattice.baserot, r1.lattice.baserot is S.lattice.baserot,
+                                           r2.lattice.base is S.lattice.base, r1.lattice.base is S.lattice.base, r2[0].mutable_extra is S[0].mutable_extra))
+    except Exception as e:  # noqa: BLE001  informational probes only
+        ck.notes.append("informational probes (non-integer multipliers / reference sharing) raised %r" % (e,))
     ck.notes.append("two-step vs one-step: %d factorisations evaluated, atom order differs in %d of them (multiset equal in all)" % (n2, n_order_differs))
     ck.coverage["distinct_nontrivial"] += nontrivial
     ck.coverage["samples"] = samples
@@ -536,13 +699,21 @@ def replay(path):
     common.use_repo()
     r = json.load(open(path))
     inp = r.get("input", {})
-    if r.get("kind") == "two-step":
-        fails, _ = oracle_two_step(inp["structure"], tuple(inp["p"]), tuple(inp["q"]))
-    elif "structure" in inp and "mno" in inp:
-        fails, _ = oracle(inp["structure"], inp["mno"])
-    else:
-        print("replay names no concrete input:", r.get("theorem"))
-        return 1
+    try:
+        if r.get("kind") == "two-step":
+            fails, _ = oracle_two_step(inp["structure"], tuple(inp["p"]), tuple(inp["q"]))
+        elif "structure" in inp and "mno" in inp:
+            fails, T = oracle(inp["structure"], inp["mno"], want_result=True, form=inp.get("form", "tuple"))
+            if r.get("kind") == "correspondence":
+                mout = common.driver([model_line(inp["structure"], inp["mno"])])[0]
+                for d_ in compare_with_model(inp["structure"], inp["mno"], mout, T):
+                    print("DISAGREES with the model: %s" % d_)
+                    fails = list(fails) + [("tie", d_)]
+        else:
+            print("replay names no concrete input:", r.get("theorem"))
+            return 1
+    except Exception as e:  # noqa: BLE001
+        fails = [("unexpected:%s" % type(e).__name__, "evaluation of the result failed with %r" % (e,))]
     for key, msg in fails:
         print("FAILS supercell:%s %s" % (key, msg))
     if not fails:
